@@ -141,7 +141,10 @@ CHECKS = {
         'text': 'Static: in gauss_helper every self.row_add(a,b) is immediately mirrored by x.row_add(a,b) with identical operands, the matrix is '
                 'written only through row_add, and a != b at every site by a recognised justification (guard, excluding range, chunk-map idiom); '
                 'inverse returns Some only under the square test and rank == rows of a full reduction whose proxy started as the identity; '
-                'row_add/col_add/row_swap/col_swap follow the trait doc and are transposes of each other; Mul is the F2 product and the forwarders keep operand order.',
+                'row_add/col_add/row_swap/col_swap follow the trait doc and are transposes of each other; Mul is the F2 product and the forwarders keep operand order; '
+                'no early exit from the block / column loops, the null space is empty only at full column rank; the column blocks tile 0..cols in both phases for every cols <= 24 and block size <= cols '
+                '(integer interpretation of num_blocks/i0/i1), a found pivot records its column, advances the pivot row once and ends the search, the elimination / pivot-search / chunk-scan loops cover the rows they must; '
+                'nullspace data flow (one vector per free variable, unit entry, back substitution pairing, fully reduced clone); transpose / constructors / stack / forwarder descriptors.',
         'note': TB + 'Not decided: that the result is a (reduced) echelon form, rank and null-space values, algebraic laws as value equalities.',
         'technique': 'mirrored-operation pairing, who-may-write, return-path condition analysis, sibling descriptors',
     },
